@@ -2,6 +2,22 @@ package tm
 
 import "github.com/cockroachdb/errors"
 
+// Construction sites of special kinds: inside an instantiated generic
+// function, inside the method of a generic type, inside a function that is
+// called "unknown" (the placeholder the stack printer uses for frames it
+// cannot resolve).
+
+//go:noinline
+func newAtGeneric[T any](msg string, _ T) error { return errors.New(msg) }
+
+type genericSite[T any] struct{ v T }
+
+//go:noinline
+func (g *genericSite[T]) make(msg string) error { return errors.New(msg) }
+
+//go:noinline
+func unknown(msg string) error { return errors.New(msg) }
+
 // The constructor below presents itself to the runtime under a source path
 // with colons (see also callmc/p2): stack frames are printed as file:line
 // and parsed back by the one-line-source and Sentry-frame code.
